@@ -7,6 +7,7 @@ from functools import reduce
 from itertools import count
 from types import CodeType, FunctionType
 
+from . import _verif
 from .utils import MISSING, NameDatabase, Unusable, UsageError, subtler_type
 
 recurse = Unusable(
@@ -564,6 +565,7 @@ def recode(fn, ovld, recurse_sym, call_next_sym, newname):
         code_mangled=code_mangled,
     ).visit(tree)
     new.body[0].decorator_list = []
+    _verif.point("recode.ast", fn=fn, tree=new)
     if fn.__closure__:
         new = closure_wrap(new.body[0], "irrelevant", fn.__code__.co_freevars)
     ast.fix_missing_locations(new)
